@@ -94,7 +94,7 @@ class FifoDevice:
         self.buf += data
         while b"\n" in self.buf:
             line, self.buf = self.buf.split(b"\n", 1)
-            text = line.decode("ascii")
+            text = line.decode("utf-8")
             with self.lock:
                 self.busy += 1
                 tag = None
